@@ -74,11 +74,17 @@ def run(tier, seed):
                 ("names", 20, 1000), ("imports", 20, 1000), ("okonly", 20, 1000)]
     for alphabet, depth, sim in plan:
         run_alphabet(rep, alphabet, depth, d, simulate=sim, seed=seed)
+    # the real read-eval-print loop (numbat-cli, lines from a pipe) with `reset` and `save` between the inputs: the file
+    # written by `save` is predicted by Repl.tla and replayed through the real binary
+    if not rep.violations:
+        from checks import x_repl
+        x_repl.repl_conformance(rep, d, "c07", 3 if tier == "quick" else 5, label="repl")
     rep.set("rule", "all histories of <= Depth inputs over the statement-template alphabets plus TLC-simulated long "
             "histories; each executed incrementally, batched, split at every cut, saved+replayed, and continued on a "
             "clone after every prefix; non-trivial = all-successful histories with >= 2 inputs")
     rep.assumptions += ["prelude-free sessions with a 4-line mini prelude; module texts served by a harness ModuleImporter",
-                        "the REPL loop of numbat-cli (try_run_command, interpret, push_to_history) is mirrored by the harness"]
+                        "the REPL loop of numbat-cli (try_run_command, interpret, push_to_history) is mirrored by the harness for the "
+                        "template histories; the real loop (binary, piped lines) runs the Repl.tla scripts"]
     if not rep.violations:
         shutil.rmtree(d, ignore_errors=True)
     return rep.finish()
